@@ -231,7 +231,9 @@ def build_oracle(log):
     cd = core.crate_dir("C03")
     td = os.path.join(core.target_dir("C03"), "native")
     for attempt in (1, 2):
-        rc, out, dt = core.sh(["cargo", "build", "--release", "--offline", "--bin", "oracle", "--target-dir", td], cwd=cd, timeout=1800)
+        # proc-macros are normally built with the dev profile: keep overflow checks and debug assertions on in the optimised oracle
+        rc, out, dt = core.sh(["cargo", "build", "--release", "--offline", "--bin", "oracle", "--target-dir", td], cwd=cd, timeout=1800,
+                              env=dict(core.ENV, RUSTFLAGS="-C overflow-checks=on -C debug-assertions=on"))
         if rc == 0:
             break
         log("native oracle build attempt %d failed (rc %s):\n%s" % (attempt, rc, out[-2500:]))
@@ -393,6 +395,19 @@ def run(tier, seed, view="C03"):
             violations.append((prop, okey, path, "", mm))
         if not m:
             undecided.append("native sweep produced no summary: %s" % out[-500:])
+        # long literals (stack depth / time): a crash of the oracle process is a totality violation
+        rc, out, dt = oracle(binpath, "stress", "50000" if tier == "quick" else "400000", timeout=900)
+        ms = re.search(r"STRESS shapes=(\d+) repeat=(\d+) violations=(\d+)", out)
+        smis = [ln[len("MISMATCH "):] for ln in out.splitlines() if ln.startswith("MISMATCH ")]
+        if not ms:
+            smis.append("PANIC: the parser killed the process on a long literal (stack exhaustion?) -- exit status %s, output tail: %s" % (rc, out[-300:].replace("\n", " ")))
+        sweep["stress"] = {"repeat": int(ms.group(2)) if ms else None, "violations": len(smis), "wall_s": round(dt, 1)}
+        for i, mm in enumerate(smis[:3]):
+            prop = "C18" if mm.startswith("PANIC") else "C03"
+            path = core.write_replay(prop, "stress_%d" % i, {
+                "property": prop, "obligation": "bounded stand-in: literals of 12 shapes repeated up to %s times are parsed within a 512 KiB stack and 20 s" % (ms.group(2) if ms else "?"),
+                "failing_literal": mm, "how_to_replay": "oracle stress <n> (built by ./check C03)"})
+            violations.append((prop, "literal_stress/%d" % i, path, "", mm))
     else:
         undecided.append("native oracle did not build")
     # failed function-level obligations: replay + lift to whole literals
